@@ -146,7 +146,7 @@ class BaseDB(object):
 
         self.lock.acquire()
         try:
-            usernames = self.db.keys()
+            usernames = list(self.db.keys())
         finally:
             self.lock.release()
         usernames = [u for u in usernames if not u.startswith("--Reserved--")]
